@@ -13,13 +13,15 @@ cp "$DIFF" "$OUT/patch.diff"; cp "$DEMO" "$OUT/demo_test.go"
 R_APPLY=fail; R_SUITE=fail; R_DEMO_WITH=unknown; R_DEMO_WITHOUT=unknown
 cd "$WT"
 cp "$DEMO" "$DDIR/zz_seed_demo_test.go"
-DT=$(grep -o 'func Test[A-Za-z0-9_]*' "$DDIR/zz_seed_demo_test.go" | head -1 | sed 's/func //')
-if go test -vet=off -count=1 -run "^$DT\$" ./$DDIR >/tmp/wt/$NAME.without.log 2>&1; then R_DEMO_WITHOUT=pass; else R_DEMO_WITHOUT=fail; fi
+DT=$(grep -o 'func Test[A-Za-z0-9_]*' "$DDIR/zz_seed_demo_test.go" | sed 's/func //' | paste -sd'|')
+DT="($DT)"
+RACEFLAG=""; if [ -n "${SEED_RACE:-}" ]; then RACEFLAG="-race"; fi
+if timeout 900 go test $RACEFLAG -vet=off -count=1 -run "^$DT\$" ./$DDIR >/tmp/wt/$NAME.without.log 2>&1; then R_DEMO_WITHOUT=pass; else R_DEMO_WITHOUT=fail; fi
 rm "$DDIR/zz_seed_demo_test.go"
 if git apply "$DIFF" 2>/tmp/wt/$NAME.apply.log; then R_APPLY=ok
   if go build ./... >/dev/null 2>&1 && go test -vet=off -count=1 -timeout 25m ./... >/tmp/wt/$NAME.suite.log 2>&1; then R_SUITE=pass; fi
   cp "$DEMO" "$DDIR/zz_seed_demo_test.go"
-  if timeout 600 go test -vet=off -count=1 -run "^$DT\$" ./$DDIR >/tmp/wt/$NAME.with.log 2>&1; then R_DEMO_WITH=pass; else R_DEMO_WITH=fail; fi
+  if timeout 900 go test $RACEFLAG -vet=off -count=1 -run "^$DT\$" ./$DDIR >/tmp/wt/$NAME.with.log 2>&1; then R_DEMO_WITH=pass; else R_DEMO_WITH=fail; fi
 fi
 cd /verif
 git -C /repo worktree remove --force "$WT" >/dev/null 2>&1
